@@ -2526,10 +2526,10 @@ def run(ctx):
     gc.collect()
     gc.freeze()          # the interpreter's own objects: keeps the many gc.collect() calls cheap
     try:
-        _run(ctx)
         # stratum "gcpoints": a collection before every statement of one operation
         from vf.monitors import _c09_gcpoints
         _c09_gcpoints.run(ctx)
+        _run(ctx)
     finally:
         WORKER.stop()
         gc.unfreeze()
